@@ -190,32 +190,53 @@ def run(tier="quick", root="/repo", evidence_dir=None, quiet=False):
                       f"{', '.join(neg)}.deriv is negative on its whole domain (decreasing map): positive weights become "
                       f"negative and the integral of a positive function comes out negative", where,
                       [f"{k}.deriv at {repo.resolve_method(k, 'deriv').loc()}" for k in neg])
-    # (d) domain
+    # (d) domain -- evaluated with private helpers inlined (`self._transform_domain(domain)`)
+    vgi = e5.VG(repo, "BaseTransform", f.node, inline=True)
+    vgi.run(body)
+    Di = None
+    if vgi.ret is not None and vgi.ret[0] == "call":
+        ai = list(vgi.ret[2]) + [None] * 3
+        Di = dict(vgi.ret[3]).get("domain", ai[2])
     d_ok = False
-    d_desc = e5.show(D, 160) if D is not None else "None"
-    if D is not None and D[0] == "phi":
-        cond, a, b = D[1], D[2], D[3]
-        built = a if a != dom else b
-        other = b if built is a else a
-        tdom = ("call", ("attr", ("sym", "self"), "transform"), (("call", ("attr", ("glob", "np"), "array"), (dom,), ()),), ())
-        tdom2 = ("call", ("attr", ("sym", "self"), "transform"), (dom,), ())  # e5 folds np.array(x) to x
-        ordered = (contains(built, tdom) or contains(built, tdom2)) and any(fn in e5.show(built, 300) for fn in ("np.sort(", "sorted(", "min(", "np.min("))
-        none_test = cond[0] == "cmp" and cond[1] in (("IsNot",), ("Is",)) and cond[2] == dom
-        d_ok = ordered and none_test and other == dom
+    d_desc = e5.show(Di, 160) if Di is not None else "None"
+    # `oned_grid.domain` may be spelled through the trivial property or the field
+    doms = (dom, ("attr", g, "_domain"))
+    if Di is not None and Di[0] == "phi":
+        cond, a, b = Di[1], Di[2], Di[3]
+        none_test = cond[0] == "cmp" and cond[1] in (("IsNot",), ("Is",)) and cond[2] in doms and \
+            cond[3] == (("const", "None"),)
+        if none_test:
+            built, other = (a, b) if cond[1] == ("IsNot",) else (b, a)
+            ordered = any(contains(built, ("call", ("attr", ("sym", "self"), "transform"), (d_,), ())) or
+                          contains(built, ("call", ("attr", ("sym", "self"), "transform"),
+                                           (("call", ("attr", ("glob", "np"), "array"), (d_,), ()),), ())) for d_ in doms) \
+                and any(fn in e5.show(built, 300) for fn in ("np.sort(", "sorted(", "min(", "np.min("))
+            d_ok = ordered and (other in doms or other == ("const", "None"))
     if d_ok:
         rep.ok("d.domain-is-ordered-image", cons, where, d_desc[:140])
     else:
         rep.violation("d.domain-is-ordered-image", cons, "domain",
                       f"the new domain is {d_desc[:150]}; expected the sorted image self.transform(np.array(domain)) when "
                       f"the old domain is not None, else None", where)
-    # (e) precondition
+    # (e) precondition -- comparisons read through local names (value graphs)
+    def show_pairs(test, graph):
+        out = set()
+        for n in ast.walk(test):
+            if isinstance(n, ast.Compare) and len(n.ops) == 1:
+                a_, b_ = e5.show(graph.ev(n.left), 200), e5.show(graph.ev(n.comparators[0]), 200)
+                if isinstance(n.ops[0], (ast.Lt, ast.LtE)):
+                    out.add((a_, b_))
+                elif isinstance(n.ops[0], (ast.Gt, ast.GtE)):
+                    out.add((b_, a_))
+        return out
     pre = None
+    cmp_ = set()
     for s in body:
-        if isinstance(s, ast.If) and s.body and isinstance(s.body[-1], ast.Raise) and f"{gparam}.domain" in norm(s.test) \
-                and "self.domain" in norm(s.test):
-            pre = s
+        if isinstance(s, ast.If) and s.body and isinstance(s.body[-1], ast.Raise):
+            pr = show_pairs(s.test, vg)
+            if any(f"{gparam}.domain" in a_ + b_ and "self.domain" in a_ + b_ for a_, b_ in pr):
+                pre, cmp_ = s, pr
     t = norm(pre.test) if pre is not None else ""
-    cmp_ = _less_pairs(pre.test) if pre is not None else set()
     lo = (f"{gparam}.domain[0]", "self.domain[0]") in cmp_
     hi = ("self.domain[1]", f"{gparam}.domain[1]") in cmp_
     first_use = min((n.lineno for n in ast.walk(f.node) if isinstance(n, ast.Call) and norm(n.func) in
@@ -229,11 +250,17 @@ def run(tier="quick", root="/repo", evidence_dir=None, quiet=False):
                       "does not dominate the construction", where)
     # (f) OneDGrid containment check
     init = repo.method("OneDGrid", "__init__")
-    txts = [norm(s.test) for s in ast.walk(init.node) if isinstance(s, ast.If) and s.body and isinstance(s.body[-1], ast.Raise)]
+    gi = e5.VG(repo, "OneDGrid", init.node, inline=False)
+    for s_ in ast.walk(init.node):
+        if isinstance(s_, ast.Assign):   # single-assignment locals of the constructor (min_p, lower, upper, ...)
+            try:
+                gi.stmt(s_)
+            except Exception:  # noqa: BLE001 - a statement the value graph cannot bind is simply not looked through
+                pass
     pairs = set()
     for s_ in ast.walk(init.node):
         if isinstance(s_, ast.If) and s_.body and isinstance(s_.body[-1], ast.Raise):
-            pairs |= _less_pairs(s_.test)
+            pairs |= show_pairs(s_.test, gi)
     low = any(("min" in a and "domain[0]" in b) for a, b in pairs)     # min(points) < domain[0] (- tol)
     high = any(("domain[1]" in a and "max" in b) for a, b in pairs)    # domain[1] (+ tol) < max(points)
     for side, okk in (("lower", low), ("upper", high)):
